@@ -250,13 +250,3 @@ Proof.
   rewrite (flat_map_no_derived _ _ _ N). destruct c; reflexivity.
 Qed.
 
-(* a second round trip changes nothing more, provided the derived options are themselves not written
-   (true of the measured tables: isRepeat has no writer) *)
-Lemma dump_unwritten dt os :
-  forallb (fun o : string * val => is_none (lookup (fst o) dt)) os = true ->
-  traverse (dump_opt dt) os = Some [].
-Proof.
-  induction os as [|o os IH]; cbn [forallb traverse]; intros H; [reflexivity|].
-  apply andb_true_iff in H as [Ho Hos]. rewrite (IH Hos). unfold dump_opt.
-  destruct (lookup (fst o) dt); [discriminate|reflexivity].
-Qed.
